@@ -11,8 +11,33 @@ use proptest::prelude::*;
 use serde::{Deserialize, Serialize};
 
 /// Compare the real parser with RefAsm on a byte string (both directions of the bijection).
+/// Render a parse result so that different byte sources can be compared.
+fn render(r: &Result<Vec<Op>, FromBytesError>) -> String {
+    format!("{r:?}")
+}
+
 pub fn check_parse(bytes: &[u8], obs: &mut Obs) -> Result<(), Violation> {
     let real: Result<Vec<Op>, FromBytesError> = asm::from_bytes(bytes.iter().copied()).collect();
+    // The parser accepts any byte iterator: the result must not depend on how the bytes are delivered
+    // (exact-size slice iterator, owned Vec, iterators without a size hint, byte-at-a-time closures).
+    let via_vec: Result<Vec<Op>, FromBytesError> = asm::from_bytes(bytes.to_vec()).collect();
+    let via_filter: Result<Vec<Op>, FromBytesError> = asm::from_bytes(bytes.iter().copied().filter(|_| true)).collect();
+    let mut i = 0usize;
+    let via_fn: Result<Vec<Op>, FromBytesError> = asm::from_bytes(std::iter::from_fn(|| {
+        let b = bytes.get(i).copied();
+        i += 1;
+        b
+    }))
+    .collect();
+    for (what, other) in [("Vec<u8>", &via_vec), ("filter() iterator", &via_filter), ("from_fn iterator", &via_fn)] {
+        ensure!(
+            render(&real) == render(other),
+            "asm:source-dependent",
+            "parsing {bytes:02x?} from a slice iterator gives {}, from a {what} gives {}",
+            render(&real),
+            render(other)
+        );
+    }
     let model = refasm::decode(bytes);
     match (&real, &model) {
         (Ok(ops), Ok((mops, _))) => {
@@ -71,6 +96,12 @@ pub fn check_roundtrip(mops: &[MOp], obs: &mut Obs) -> Result<(), Violation> {
         "asm:encode-differs",
         "to_bytes({ops:?}) = {bytes:02x?}, specification says {expect:02x?}"
     );
+    // chained without an intermediate buffer
+    let chained: Result<Vec<Op>, FromBytesError> = asm::from_bytes(asm::to_bytes(ops.iter().copied())).collect();
+    match &chained {
+        Ok(b) => ensure!(*b == ops, "asm:roundtrip", "from_bytes(to_bytes(ops)) (chained iterators) = {b:?} != {ops:?}"),
+        Err(e) => return Err(viol!("asm:roundtrip", "from_bytes(to_bytes({ops:?})) (chained iterators) failed: {e:?}")),
+    }
     let back: Result<Vec<Op>, _> = asm::from_bytes(bytes.iter().copied()).collect();
     match back {
         Ok(b) => ensure!(b == ops, "asm:roundtrip", "from_bytes(to_bytes(ops)) = {b:?} != {ops:?}"),
